@@ -43,3 +43,39 @@ impl CborCalculator {
         ensures r == Self::bsize(*address), r <= 0xffff { unimplemented!() }
 }
 clone_eq!(AssetIndex);
+// ---- address classification as far as WitnessesCalculator::add_address uses it (Address's own methods are under contract in the Kani address
+// harnesses; here ASSUMED: an address is of exactly one kind, a credential is exactly one of key hash / script hash)
+clone_eq!(Address);
+impl PartialEq for Address { #[verifier::external_body] fn eq(&self, o: &Address) -> bool { unimplemented!() } }
+impl Eq for Address {}
+impl PartialOrd for Address { #[verifier::external_body] fn partial_cmp(&self, o: &Address) -> Option<core::cmp::Ordering> { unimplemented!() } }
+impl Ord for Address { #[verifier::external_body] fn cmp(&self, o: &Address) -> core::cmp::Ordering { unimplemented!() } }
+pub enum AKind { Base, Enterprise, Pointer, Byron, Other }
+opaque_types!(BaseAddress, EnterpriseAddress, PointerAddress, Credential, KeyHash_, ScriptHash_);
+impl Address {
+    pub uninterp spec fn akind(&self) -> AKind;
+    /// payment credential is a key hash (meaningful for base / enterprise / pointer addresses)
+    pub uninterp spec fn pay_is_key(&self) -> bool;
+    pub uninterp spec fn as_byron(&self) -> ByronAddress;
+}
+impl Credential {
+    pub uninterp spec fn is_key(&self) -> bool;
+    #[verifier::external_body] pub fn to_keyhash(&self) -> (r: Option<KeyHash_>) ensures r is Some <==> self.is_key() { unimplemented!() }
+    #[verifier::external_body] pub fn to_scripthash(&self) -> (r: Option<ScriptHash_>) ensures r is Some <==> !self.is_key() { unimplemented!() }
+}
+macro_rules! addr_view { ($($t:ident, $k:ident);* $(;)?) => { verus!{ $(
+    impl $t {
+        pub uninterp spec fn of(&self) -> Address;
+        #[verifier::external_body] pub fn from_address(addr: &Address) -> (r: Option<$t>) ensures r is Some <==> addr.akind() is $k, r is Some ==> r->Some_0.of() == *addr { unimplemented!() }
+        #[verifier::external_body] pub fn payment_cred(&self) -> (r: Credential) ensures r.is_key() == self.of().pay_is_key() { unimplemented!() }
+    }
+)* } } }
+addr_view!(BaseAddress, Base; EnterpriseAddress, Enterprise; PointerAddress, Pointer);
+impl ByronAddress {
+    #[verifier::external_body] pub fn from_address(addr: &Address) -> (r: Option<ByronAddress>) ensures r is Some <==> addr.akind() is Byron, r is Some ==> r->Some_0 == addr.as_byron() { unimplemented!() }
+}
+pub open spec fn shelley_payment(a: Address) -> bool { a.akind() is Base || a.akind() is Enterprise || a.akind() is Pointer }
+impl Address { pub uninterp spec fn stake_is_key(&self) -> bool; }
+impl BaseAddress {
+    #[verifier::external_body] pub fn stake_cred(&self) -> (r: Credential) ensures r.is_key() == self.of().stake_is_key() { unimplemented!() }
+}
